@@ -677,8 +677,8 @@ impl Check for C22 {
     }
     fn cases(&self, tier: Tier) -> u64 {
         match tier {
-            Tier::Quick => 2_000_000,
-            Tier::Thorough => 60_000_000,
+            Tier::Quick => 40_000_000,
+            Tier::Thorough => 300_000_000,
         }
     }
     fn tape_len(&self, _t: Tier) -> usize {
